@@ -280,7 +280,7 @@ def scenarios(tier, seed):
     add("indexing_batch2", kernel="rbf")
     add("indexing_batch2", kernel="scale_rq")
     if tier != "quick":
-        add("indexing_batch2", kernel="rbf*periodic")  # (rbf+linear: the low-rank LinearKernel part is indexed through an SVD-based root: not encodable)
+        # (rbf+linear: the low-rank LinearKernel part is indexed through an SVD-based root: not encodable; rbf*periodic: spurious models)
         add("indexing_batch2", kernel="poly")
     add("indexing", kernel="rbf_grad", n1=2, n2=3, d=1, batch=0, alphabet=a)
     add("indexing", kernel="rbf", n1=3, n2=4, d=1, batch=2, alphabet="q")
